@@ -9,3 +9,5 @@ import DateutilVerif.Properties.C11
 #print axioms C11.all_complete
 #print axioms C11.nested_no_deadlock_partial
 #print axioms C11.nested_all_complete_partial
+#print axioms C11.nested_init_fresh
+#print axioms C11.nested_no_deadlock_init
